@@ -125,7 +125,13 @@ func (c *Ctx) findDisasm() (*ast.FuncDecl, *ast.SwitchStmt) {
 			}
 			for _, s := range fd.Body.List {
 				if sw, ok := s.(*ast.SwitchStmt); ok && sw.Tag != nil && isNamed(c.typeOf(sw.Tag), bclPath, "opcode") {
-					if hasIntParam {
+					tagIsParam := false
+					for i := 0; i < sig.Params().Len(); i++ {
+						if c.isObj(sw.Tag, sig.Params().At(i)) {
+							tagIsParam = true // handed the opcode already fetched: the decoder is its caller
+						}
+					}
+					if hasIntParam && !tagIsParam {
 						return fd, sw
 					}
 					// the dispatch is a method of a value that carries the offset (it returns the size): the decoder is
